@@ -10,6 +10,7 @@
 From Coq Require Import List NArith Bool Permutation.
 From LH Require Import Model.Diag Model.Events Spec.FreshStart.
 From LH Require Import Proofs.EventsTracks Proofs.EventsIndex Proofs.EventsInv Proofs.EventsToy Proofs.EventsToyOk.
+From LH Require Import Proofs.EventsTagBlind.
 Import ListNotations.
 Local Open Scope N_scope.
 
@@ -329,3 +330,60 @@ Example C08_guard_inhabited_outside :
   view (snd (run toyA deployed g_dk2 (firstn 39 g_h2))) 0 = [(2, 1, 1)] /\
   view (snd (run toyA deployed g_dk2 g_h2)) 0 = [(2, 0, 2); (2, 1, 1)] /\ view (snd (run toyA deployed g_dk2 g_h2)) 4 = [].
 Proof. vm_compute. auto 12. Qed.
+
+(* ---- the message texts. An `err` is (type, start line, tag); the tag stands for everything else the client is shown
+        (columns, message text), and every statement above is about lists of full triples: `Permutation` of `list err`.
+        Spelled out for the full theorem: a diagnostic with a given type, line AND tag is on display exactly when the
+        property demands that very diagnostic ---- *)
+Theorem C08_full_texts :
+  forall (A : analysis), analysis_ok A ->
+  forall (dk : amap (text A)) (h : list (action A)),
+    conformant A deployed dk h = true ->
+    forall f ty ln tag, In (ty, ln, tag) (view (snd (run A deployed dk h)) f) <->
+                        In (ty, ln, tag) (demanded A deployed (fst (run A deployed dk h)) f).
+Proof.
+  exact (fun A HA dk h Hc f ty ln tag =>
+           conj (Permutation_in _ (deployed_view A HA dk h Hc f))
+                (Permutation_in _ (Permutation_sym (deployed_view A HA dk h Hc f)))).
+Qed.
+Print Assumptions C08_full_texts.
+
+(* regression on the seeded change C08-4 ("IsSameErrList compares ErrType and Loc only"): two analyses that differ in the
+   tag only. a.lua `print(g1)` is rewritten on disk to `print(g2)` (watched Changed event): the model of the code as it is
+   re-publishes a.lua, its view is the fresh start's *)
+Theorem C08_tag_switch_regression :
+  toy_meets deployed w_tag_dk w_tag /\ view (snd (run toyA deployed w_tag_dk w_tag)) 0 = [(2, 0, 2)].
+Proof. exact tag_switch_meets. Qed.
+Print Assumptions C08_tag_switch_regression.
+Example C08_tag_switch_differs_in_tag_only :
+  fresh_view toyA deployed w_tag_dk 0 = [(2, 0, 1)] /\
+  fresh_view toyA deployed (disk (fst (run toyA deployed w_tag_dk w_tag))) 0 = [(2, 0, 2)] /\
+  errs_eqb_notag [(2, 0, 1)] [(2, 0, 2)] = true /\ errs_eqb [(2, 0, 1)] [(2, 0, 2)] = false.
+Proof. exact w_tag_differs_in_tag_only. Qed.
+(* the text of c.lua's diagnostic depends on ANOTHER file: b.lua `function gf(a, b) end` is edited to `function gf(a) end`
+   and saved while c.lua calls gf(1, 2, 3): "... func define param num(2)" becomes "(1)" on the client *)
+Theorem C08_tag_switch_cross_file :
+  toy_meets deployed w_tag2_dk w_tag2 /\
+  view (snd (run toyA deployed w_tag2_dk [])) 2 = [(10, 1, 2)] /\
+  view (snd (run toyA deployed w_tag2_dk w_tag2)) 2 = [(10, 1, 1)].
+Proof. exact tag_switch2_meets. Qed.
+Print Assumptions C08_tag_switch_cross_file.
+
+(* the role of the tag: `run_w A fx same` (Proofs/EventsTagBlind.v) is the model with the list equality of
+   pushAllDiagnosticsAgain as a parameter; with the model's own errs_eqb it IS the model, for all inputs ... *)
+Theorem C08_tag_variant_is_model :
+  forall (A : analysis) (fx : fixes) (dk : amap (text A)) (h : list (action A)),
+    run_w A fx errs_eqb dk h = run A fx dk h.
+Proof. exact run_w_errs_eqb. Qed.
+Print Assumptions C08_tag_variant_is_model.
+(* ... and with an equality that ignores the tag (errs_eqb_notag: type and line only) the property is refuted on both
+   histories above: conformant, same disk, no unsaved edits, and the client is left with the OLD text *)
+Theorem C08_tag_blind_refuted :
+  tag_blind_refutes w_tag_dk w_tag 0 /\
+  view (snd (run_w toyA deployed errs_eqb_notag w_tag_dk w_tag)) 0 = [(2, 0, 1)] /\
+  demanded toyA deployed (fst (run_w toyA deployed errs_eqb_notag w_tag_dk w_tag)) 0 = [(2, 0, 2)].
+Proof. exact tag_blind_refuted. Qed.
+Print Assumptions C08_tag_blind_refuted.
+Theorem C08_tag_blind_refuted_cross_file : tag_blind_refutes w_tag2_dk w_tag2 2.
+Proof. exact tag_blind_refuted2. Qed.
+Print Assumptions C08_tag_blind_refuted_cross_file.
